@@ -6,7 +6,7 @@ NA["C08"] = ("name resolution is decided inside compile(); compile() does not cl
              "solver-chosen sets of existing functions, add_function, super_depth): written, run natively (they exposed four genuine "
              "defects, all repaired by fix: commits), but under Kani every resolve_function harness - even one called name with at most "
              "four solver-chosen functions - ran past 25 minutes (String building through iterator chains, the two-way string searcher "
-             "of split_once, hashbrown iteration), and super_depth on 7 symbolic bytes past 5 minutes. With no harness closing there is "
+             "of split_once, hashbrown iteration), super_depth on 7 symbolic bytes past 5 minutes, add_function (two registrations, real format!) past 28 minutes. With no harness closing there is "
              "no solver verdict to report, so no claim is made; the harnesses are kept as tier x in harness/src/c08.rs")
 NA["C09"] = ("every clause needs the VM running script callbacks over heap tables (ForEach + DynamicCall + SetProperty per element, "
              "or run_function re-entry plus sort_by); whole-VM runs beyond ~5 dispatches and table histories beyond one operation do not "
